@@ -310,9 +310,11 @@ class StringifyMapper(Mapper):
                 enclosing_prec, PREC_COMPARISON)
 
     def map_logical_not(self, expr, enclosing_prec, *args, **kwargs):
+        # In Python, 'not' binds more loosely than comparisons and arithmetic:
+        # as an operand of those it needs parentheses.
         return self.parenthesize_if_needed(
                 "not " + self.rec(expr.child, PREC_UNARY, *args, **kwargs),
-                enclosing_prec, PREC_UNARY)
+                enclosing_prec, PREC_LOGICAL_AND)
 
     def map_logical_or(self, expr, enclosing_prec, *args, **kwargs):
         return self.parenthesize_if_needed(
